@@ -36,6 +36,7 @@ type evalCtx struct {
 	depth   int
 	bound   map[string]bool
 	rawMaps bool // map lookups without the presence test (pattern terms)
+	goEq    bool // == on aggregates with Go's IEEE semantics for float fields
 }
 
 type evalErr struct{ msg string }
@@ -605,9 +606,10 @@ func (c *evalCtx) evalBin(x *EBin) TVal {
 		}
 	}
 	// spec-level division does not create obligations
-	saved := c.ex.noSafety
+	saved, savedEq := c.ex.noSafety, c.ex.specEq
 	c.ex.noSafety = true
-	defer func() { c.ex.noSafety = saved }()
+	c.ex.specEq = !c.goEq
+	defer func() { c.ex.noSafety, c.ex.specEq = saved, savedEq }()
 	r := c.ex.binop(c.st, c.fr, tk, a.V, b.V, a.T, b.T, token.NoPos, nil)
 	rt := a.T
 	if s, ok := r.(Sc); ok && s.S == SBool {
@@ -733,9 +735,7 @@ func (c *evalCtx) evalCall(x *ECall) TVal {
 			}
 			if s, isStr := v.V.(Sc); isStr && s.S == SFP {
 				// float64 fields are laid out by their IEEE bit pattern
-				b := c.ex.vc.Fresh("f64bits", BV(64))
-				c.ex.vc.Assume(eq(app("(_ to_fp 11 53)", b), s.T))
-				parts = append(parts, b)
+				parts = append(parts, c.ex.f64bits(s.T))
 				w += 64
 				continue
 			}
@@ -812,6 +812,30 @@ func (c *evalCtx) evalCall(x *ECall) TVal {
 			c.errf("fresh(): not a reference")
 		}
 		return boolTV(and(not(eq(r, z64())), not(sel(c.old.alloc, r))))
+	case "visited":
+		// visited(k): key k has already been produced by the enclosing range-over-map statement
+		k := arg(0)
+		var gk string
+		for name := range c.st.ghost {
+			if strings.HasPrefix(name, "$visited_") && (gk == "" || name > gk) {
+				gk = name
+			}
+		}
+		if c.ex.curRange != nil {
+			if _, ok := c.st.ghost[fmt.Sprintf("$visited_%p", c.ex.curRange)]; ok {
+				gk = fmt.Sprintf("$visited_%p", c.ex.curRange)
+			}
+		}
+		if gk == "" {
+			c.errf("visited(): no range-over-map statement in scope")
+		}
+		vis := sc(c.st.ghost[gk])
+		ks, _ := vis.S.ArrParts()
+		kk := sc(k.V)
+		if k.C != nil {
+			kk = Sc{bvLit(k.C, ks.Width()), ks}
+		}
+		return boolTV(sel(vis.T, kk.T))
 	case "allocated":
 		v := arg(0)
 		var r string
@@ -824,6 +848,10 @@ func (c *evalCtx) evalCall(x *ECall) TVal {
 			c.errf("allocated(): not a reference")
 		}
 		return boolTV(sel(c.st.alloc, r))
+	case "goeq":
+		n := *c
+		n.goEq = true
+		return n.evalBin(&EBin{"==", x.Args[0], x.Args[1]})
 	case "refof":
 		v := arg(0)
 		switch p := v.V.(type) {
@@ -838,7 +866,9 @@ func (c *evalCtx) evalCall(x *ECall) TVal {
 		for _, a := range x.Args {
 			nv := c.eval(a)
 			ov := c.withState(c.old).eval(a)
+			c.ex.specEq = true
 			cs = append(cs, c.ex.valEq(nv.V, ov.V, nv.T))
+			c.ex.specEq = false
 		}
 		return boolTV(and(cs...))
 	case "with":
